@@ -65,6 +65,10 @@ def next_record(sim):
     # clustering inside: three times the weight of the others)
     fn = r.choice(fns + ["spectral_clustering"] * 2 if "spectral_clustering" in fns else fns)
     seed = 0 if r.random() < 0.15 else r.randrange(1 << 16)  # 0 is a seed too (falsy)
+    if r.random() < 0.12:
+        # whatever the underlying generator accepts as a seed is a seed: a string, a float, a
+        # numpy integer (a function that rejects one of them must reject it both times)
+        seed = r.choice([f"run-{seed}", seed + 0.5, {"npi": seed}])
     rec = {"uid": g.next_uid(), "op": "seeded_pair", "fn": fn, "seed": seed,
            "argseed": r.randrange(1 << 30),
            "perturb": [[r.choice(PERTURB), r.randrange(1 << 16)] for _ in range(r.randint(0, 6))]}
@@ -239,6 +243,7 @@ def do_pair(sim, rec):
     if make_args(xgi, fn, rec["argseed"]) is not None:
         for kind, val in rec.get("pre", []):
             perturb(sim, kind, val, fn, rec["argseed"])
+    rec = dict(rec, seed=dec(rec["seed"]))
     st1, r1 = call(xgi, fn, rec["argseed"], rec["seed"])
     if st1 == "UNCOVERED":
         cov[fn + "|uncovered"] = cov.get(fn + "|uncovered", 0) + 1
